@@ -37,6 +37,7 @@ import (
 	common2 "github.com/elastos/Elastos.ELA/core/types/common"
 	"github.com/elastos/Elastos.ELA/core/types/functions"
 	"github.com/elastos/Elastos.ELA/core/types/interfaces"
+	"github.com/elastos/Elastos.ELA/core/types/outputpayload"
 	"github.com/elastos/Elastos.ELA/core/types/payload"
 	"github.com/elastos/Elastos.ELA/crypto"
 	"github.com/elastos/Elastos.ELA/dpos/state"
@@ -556,7 +557,15 @@ func freshTransfer(r *hx.Rand, tmpl interfaces.Transaction, k int) interfaces.Tr
 	}
 	tx.SetInputs(ins)
 	tx.SetLockTime(uint32(r.Intn(1000)))
-	if r.Bool() { // the new wire layout (leading version byte)
+	if r.Bool() { // the new wire layout (leading version byte; outputs carry a typed payload)
+		outs := []*common2.Output{}
+		for _, o := range tx.Outputs() {
+			c := *o
+			c.Type = common2.OTNone
+			c.Payload = &outputpayload.DefaultOutput{}
+			outs = append(outs, &c)
+		}
+		tx.SetOutputs(outs)
 		tx.SetVersion(common2.TxVersion09)
 	}
 	return cloneTx(tx)
@@ -605,6 +614,40 @@ func blockHex(b *types.Block) string {
 		panic("harness: " + err.Error())
 	}
 	return hex.EncodeToString(buf.Bytes())
+}
+
+// emitSanityRaw delivers block BYTES (possibly changed on the wire)
+func emitSanityRaw(g *hx.Gen, raw []byte) (out string) {
+	defer func() {
+		if e := recover(); e != nil {
+			out = "undecodable" // the decoder refuses the changed bytes: nothing to deliver
+		}
+	}()
+	hexs := hex.EncodeToString(raw)
+	bb := decodeBlock(hexs)
+	return g.Emit("sanity %s %s", hexs, describe(getChain(), bb))
+}
+
+// txOffsets returns the offset of every transaction inside the serialised block
+func txOffsets(b *types.Block) ([]byte, []int) {
+	buf := new(bytes.Buffer)
+	if err := b.Serialize(buf); err != nil {
+		panic("harness: " + err.Error())
+	}
+	hb := new(bytes.Buffer)
+	b.Header.Serialize(hb)
+	off := hb.Len() + 4
+	offs := []int{}
+	for _, tx := range b.Transactions {
+		offs = append(offs, off)
+		tb := new(bytes.Buffer)
+		tx.Serialize(tb)
+		off += tb.Len()
+	}
+	if off != buf.Len() {
+		panic("harness: block layout")
+	}
+	return buf.Bytes(), offs
 }
 
 func emitSanity(g *hx.Gen, b *types.Block) string {
@@ -822,11 +865,12 @@ func gen(g *hx.Gen) {
 				continue
 			}
 			if txs[j].Version() >= common2.TxVersion09 {
-				m := cp()
-				t2 := cloneTx(txs[j])
-				t2.SetVersion(common2.TransactionVersion(0x0a + r.Intn(3)))
-				m[j] = reencode(t2)
-				mut(m)
+				// on the wire: exactly the leading version byte of this transaction
+				raw, offs := txOffsets(&types.Block{Header: hdr, Transactions: txs})
+				if raw[offs[j]] == byte(common2.TxVersion09) {
+					raw[offs[j]] = byte(0x0a + r.Intn(3))
+					emitSanityRaw(g, raw)
+				}
 			}
 			m := cp()
 			t2 := cloneTx(txs[j])
